@@ -2197,6 +2197,9 @@ class Interp:
             if attr == 'extend' and len(args) == 1 and isinstance(args[0], (list, tuple)):
                 o.extend(args[0])
                 return None
+            if attr == 'extend' and len(args) == 1 and isinstance(args[0], Untracked):
+                o.append(Untracked())          # unknown further elements (the list is only good for messages from here on: join gives Untracked)
+                return None
             if attr == 'copy':
                 return list(o)
         if isinstance(o, (SymSeq, list)) and attr == 'extend' and len(args) == 1 and isinstance(args[0], Obj):
